@@ -387,6 +387,25 @@ class Trace:
                        (Ptychography, "reset_recon", Ptychography.__dict__["reset_recon"]),
                        (PtychographyOpt, "step_optimizers", PtychographyOpt.__dict__["step_optimizers"])]
         real_reconnect, real_record, real_reset, real_step = (s[2] for s in self._saved)
+        # growth 6: zero_grad_all (the live-gradient model, Model/CheckpointLive.lean); resolved defensively — a version
+        # that inlines it into the loop simply produces no "zero" events and the live stream reports nothing
+        real_zero = PtychographyOpt.__dict__.get("zero_grad_all")
+
+        def grad_masks(p):
+            out = {}
+            for k in KEYS:
+                try:        # (a dataset with learn_descan = learn_scan_positions = False has no optimizable parameters: raises)
+                    out[k] = [t.grad is not None for t in opt_params(model_of(p, k))]
+                except Exception:
+                    out[k] = []
+            return out
+
+        def zero(p, *a, **kw):
+            before = grad_masks(p)
+            has = {k: bool(model_of(p, k).has_optimizer()) for k in KEYS}
+            out = real_zero(p, *a, **kw)
+            tr.events.append({"ev": "zero", "obj": id(p), "before": before, "has": has, "after": grad_masks(p)})
+            return out
 
         def reconnect(m, *a, **kw):
             o = m._optimizer
@@ -440,13 +459,17 @@ class Trace:
                 m = model_of(p, k)
                 if m.has_optimizer():
                     masks[k] = [t.grad is not None for t in opt_params(m)]
+            allm = grad_masks(p)
             real_step(p, *a, **kw)
-            tr.events.append({"ev": "step", "obj": id(p), "grads": masks})
+            tr.events.append({"ev": "step", "obj": id(p), "grads": masks, "all_grads": allm})
 
         OptimizerMixin.reconnect_optimizer_to_parameters = reconnect
         Ptychography._record_iter = record
         Ptychography.reset_recon = reset
         PtychographyOpt.step_optimizers = step
+        if real_zero is not None:
+            self._saved.append((PtychographyOpt, "zero_grad_all", real_zero))
+            PtychographyOpt.zero_grad_all = zero
         return self
 
     def __exit__(self, *exc):
